@@ -419,6 +419,7 @@ func c16Grammar(t *rapid.T, parser string) []byte {
 			"GET http://h.test/" + strings.Repeat("p", 4078), strings.Repeat("x", 65536), strings.Repeat("x", 65535),
 			"GET http://h.test/ HTTP/1.1", "GET http://h.test/ HTTP/", "GET http://h.test/ HTTP", "GET http://h.test/ HTTP/x", "GET  HTTP/", "GET http://h.test/ http/1.1", "HTTP/ http://h.test/",
 			"POST\thttp://h.test/", "GET\fhttp://h.test/", "GET\vhttp://h.test/", "GET\rhttp://h.test/", "PUT\u00a0http://h.test/", "GET\t", "G ET http://h.test/", "GET\thttp://h.test/ x",
+			"\u00a0", "\u2003", " \u00a0 ", "\u0085", "\u3000\t", "\u00a0# comment", "\ufeff",
 			"", " ", "\t", "# comment", " # indented comment", "#", "\t#@/etc/hostname", "#GET http://h.test/", "\r", "GET http://h.test/\r", "\x00", strings.Repeat("x", 70000)}
 		if rapid.Bool().Draw(t, "structured") {
 			// well-formed targets, the last one's header block interrupted by one odd line
